@@ -1771,6 +1771,18 @@ val as_bytes : val0 -> bytes option
 
 val as_list : val0 -> val0 list option
 
+val vget : val0 list -> nat -> val0 option
+
+val vset : val0 list -> nat -> val0 -> val0 list
+
+val vpad : nat -> val0 list
+
+val vext : val0 list -> nat -> val0 list
+
+val vcount : val0 list -> nat
+
+val same_nat : nat -> nat -> bool
+
 val set_nth0 : nat -> 'a1 -> 'a1 list -> 'a1 list
 
 val in_range0 : z -> nat -> bool
